@@ -104,6 +104,8 @@ TOLERANCES = {
                        'delta = max|M^T M - I| of the PyWavelets matrix M of '
                        'the same configuration',
     'inputs': 'bit-identical to pre-call copies',
+    'floor': 'every value tolerance has the absolute floor 1e3*tiny(dtype) '
+             '(subnormal range, FFTW may flush to zero)',
 }
 ASSUMPTIONS = [
     'element data is finite, seeded or explicit in the descriptor, |x| ~ 1',
@@ -156,7 +158,8 @@ EXHAUSTIVE = {
                  'complex domains)',
                  'plain DFT 3-D: all shapes over {1,2,3,4,5,8} with product '
                  '<= 40 x all 15 ordered axes subsets x halfcomplex x sign x '
-                 'four dtypes x impl with out= (all call styles for the '
+                 'four dtypes (float64/complex128 only for shapes with a '
+                 'length-1 axis) x impl with out= (all call styles for the '
                  'shapes without a length-1 axis and product <= 16)',
                  'negative axes encodings: every (shape, ordered axes) with '
                  'all-negative axes x halfcomplex x sign x '
@@ -258,6 +261,13 @@ def _cdtype(dtype):
 
 def _eps(dtype):
     return float(np.finfo(np.dtype(dtype)).eps)
+
+
+def _floor(dtype):
+    """Absolute floor of every tolerance: below ~1e3 * tiny(dtype) values
+    are subnormal (or flushed to zero by FFTW) and carry no relative
+    accuracy."""
+    return 1e3 * float(np.finfo(np.dtype(dtype)).tiny)
 
 
 def _maxerr(got, ref):
@@ -377,8 +387,8 @@ def _run_dft(desc):
     naxes = len(axes)
     eps = _eps(dtype)
     fails = Fails()
-    fails.info = ' [{} shape={} axes={} sign={} halfcomplex={} style={}]'.format(
-        dtype.name, shape, axes_arg, sign, hc, style)
+    fails.info = (' [{} shape={} axes={} sign={} halfcomplex={} style={}]'
+                  ''.format(dtype.name, shape, axes_arg, sign, hc, style))
     if style == 'alias' and (real or hc):
         raise HarnessError('alias style needs a complex full transform')
 
@@ -390,7 +400,8 @@ def _run_dft(desc):
     negative = any(a < 0 for a in axes_arg)
     region = _dft_region(real, hc, sign, impl, naxes)
     strata = ['dft:' + part, 'dft', 'dft:dtype=' + dtype.name,
-              'dft:impl=' + impl, 'dft:style=' + style, 'dft:hc=%d' % hc, 'dft:sign=' + sign,
+              'dft:impl=' + impl, 'dft:style=' + style, 'dft:hc=%d' % hc,
+              'dft:sign=' + sign,
               'dft:ndim=%d' % nd, 'dft:naxes=%d' % naxes]
     if odd:
         strata.append('dft:odd')
@@ -468,7 +479,8 @@ def _run_dft(desc):
         # only needed for the round trip inverse(dft(x)); judged by the
         # 'fwd' twin of this configuration
         ok, y = _try(op, dom.element(x1.copy()))
-        tol = 32 * eps * logn * float(np.linalg.norm(x1.ravel())) + 1e-300
+        tol = 32 * eps * logn * float(np.linalg.norm(x1.ravel())) + \
+            _floor(dtype)
         fwd_ok = bool(ok and _check_result(y, op.range, exp_shape, cdt)
                       is None and _maxerr(y.asarray(), R.numpy_dft(
                           x1, axes, sign, eff_hc)) <= tol)
@@ -478,7 +490,7 @@ def _run_dft(desc):
         ref_np = R.numpy_dft(x, axes, sign, eff_hc)
         ref_d = R.dense_dft(x, axes, sign, eff_hc)
         tol = 32 * eps * logn * float(np.linalg.norm(x.ravel())) + \
-            1e-300
+            _floor(dtype)
         if _maxerr(ref_np, ref_d) > 32 * _eps('float64') * logn * max(
                 1.0, float(np.linalg.norm(x.ravel()))):
             raise HarnessError('numpy.fft and dense DFT disagree')
@@ -535,7 +547,8 @@ def _run_dft(desc):
     # ---- inverse -----------------------------------------------------------
     inv_sign = '+' if sign == '-' else '-'
     yref = np.asarray(R.dense_dft(x1, axes, sign, eff_hc)).astype(cdt)
-    tol_i = 64 * eps * logn * float(np.linalg.norm(x1.ravel())) + 1e-300
+    tol_i = 64 * eps * logn * float(np.linalg.norm(x1.ravel())) + \
+        _floor(dtype)
     lastpar = 'lastodd' if shape[axes[-1]] % 2 else 'lasteven'
 
     def check_inverse(inv, via, inv_impl, inv_style):
@@ -651,7 +664,7 @@ def _ft_tol(eps, shape, axes, x0, stride, coords, fnorm):
                    abs(float(x0[a] + (shape[a] - 1) * stride[a])))
         phase += xmax * float(np.max(np.abs(coords[a])))
     rel = 64 * eps * (2 + math.log2(max(N, 2)) + phase)
-    return rel * K * math.sqrt(N) * fnorm + 1e-300, rel
+    return rel * K * math.sqrt(N) * fnorm, rel
 
 
 def _run_ft(desc):
@@ -786,6 +799,7 @@ def _run_ft(desc):
                     t[...] = np.nan
         tol, rel = _ft_tol(eps, shape, axes, x0, stride, coords,
                            float(np.linalg.norm(x.ravel())))
+        tol += _floor(dtype)
         reg = region
         ok, y, xe = _dft_call(op, dom, x, style)
         if not ok:
@@ -832,7 +846,7 @@ def _run_ft(desc):
     ref1, _ = R.dense_ft(x1, x0, stride, axes, shifts, sign, eff_hc)
     yref = np.asarray(ref1).astype(cdt)
     tol_rt = max(rel or 0.0, 64 * eps) * 2 * (math.pi / 2) ** naxes * float(
-        np.linalg.norm(x1.ravel())) + 1e-300
+        np.linalg.norm(x1.ravel())) + _floor(dtype)
     ok, inv = _try(lambda: op.inverse)
     adj_y = None
     if not ok:
@@ -1178,7 +1192,7 @@ def _run_wav(desc):
             type(c).__name__, region), _exc(c))
     scale_c = float(np.max(np.abs(cref))) if cref.size else 0.0
     if c not in W.range or not _maxerr(c.asarray(), cref) <= \
-            16 * eps * scale_c + 1e-300:
+            16 * eps * scale_c + _floor(dtype):
         fails.add('C18|wav-value|WaveletTransform|' + region,
                   'coefficients differ from pywt.wavedecn+ravel_coeffs by '
                   '{:.3g}'.format(_maxerr(c.asarray(), cref)))
@@ -1221,7 +1235,8 @@ def _run_wav(desc):
             type(r).__name__, region + ',roundtrip'), _exc(r))
     else:
         err = _maxerr(r.asarray(), x)
-        tol = 4 * err_pw + 64 * eps * (float(np.max(np.abs(x))) + 1e-300)
+        tol = 4 * err_pw + 64 * eps * float(np.max(np.abs(x))) + \
+            _floor(dtype)
         if not err <= tol:
             fails.add('C18|wav-roundtrip|WaveletTransform|' + region,
                       'W.inverse(W(x)) differs from x by {:.3g}; PyWavelets '
@@ -1273,7 +1288,7 @@ def _run_wav(desc):
                           ''.format(res[0], tol, float(space.cell_volume)))
         nx = float(np.linalg.norm(x.ravel()))
         nc = float(np.linalg.norm(np.asarray(c.asarray()).ravel()))
-        if not abs(nc - nx) <= tol * max(nx, 1e-300):
+        if not abs(nc - nx) <= tol * nx + _floor(dtype):
             fails.add('C18|wav-norm|WaveletTransform|' + areg,
                       '||Wx||_2 = {!r} but ||x||_2 = {!r}'.format(nc, nx))
         strata.append('wav:adjoint-gram')
@@ -1354,7 +1369,8 @@ def _enumerate_dft(tier):
     for shape, full in _dft_shapes(tier):
         nd = len(shape)
         for axes in _ordered_subsets(nd):
-            dtypes = all_dtypes if (full or tier == 'thorough') else \
+            dtypes = all_dtypes if (full or (tier == 'thorough' and
+                                            1 not in shape)) else \
                 ['float64', 'complex128']
             for hc, sign, dtype, impl in itertools.product(
                     (False, True), '-+', dtypes, ('numpy', 'pyfftw')):
@@ -1650,7 +1666,8 @@ def strategy(tier):
 
 
 REQUIRED_STRATA = [
-    'dft', 'dft:fwd', 'dft:inv', 'ft', 'gauss', 'grid', 'wav', 'dft:impl=pyfftw',
+    'dft', 'dft:fwd', 'dft:inv', 'ft', 'gauss', 'grid', 'wav',
+    'dft:impl=pyfftw',
     'dft:style=alias', 'dft:permuted-axes', 'dft:negative-axes', 'dft:odd',
     'ft:shift=mixed', 'ft:tmp=rf', 'ft:tmp=create', 'ft:impl=pyfftw',
     'ft:off-centre-domain', 'ft:hc=1', 'ft:adjoint-is-inverse',
